@@ -353,6 +353,23 @@ Proof.
   specialize (Hb e (ev_in_cands _ _ _ Hs He)). rewrite Hs in Hb. discriminate.
 Qed.
 
+Lemma cands_not_env s e : In e (cands s) -> is_env e = false.
+Proof.
+  unfold cands. intros H. apply in_app_or in H as [H|H].
+  - cbn in H. repeat (destruct H as [<-|H]; [reflexivity|]). destruct H.
+  - apply in_flat_map in H as (i & _ & H). cbn in H. repeat (destruct H as [<-|H]; [reflexivity|]). destruct H.
+Qed.
+
+Lemma can_move_dec s : can_move c s \/ ~ can_move c s.
+Proof.
+  destruct (blockedb c s) eqn:Eb; [right; apply blockedb_sound; exact Eb|left].
+  unfold blockedb in Eb. assert (Hx : existsb (fun e => match step c s e with None => false | Some _ => true end) (cands s) = true).
+  { clear -Eb. induction (cands s) as [|e r IH]; cbn [forallb existsb] in *; [discriminate|].
+    destruct (step c s e); cbn [andb orb] in *; [reflexivity|]. apply IH. exact Eb. }
+  apply existsb_exists in Hx as (e & Hin & He). destruct (step c s e) as [s'|] eqn:Es; [|discriminate].
+  exists e, s'. split; [exact Es|apply (cands_not_env _ _ Hin)].
+Qed.
+
 (* an executable version of murun *)
 Fixpoint murunb (s : gst) (es : list ev) : option gst :=
   match es with
